@@ -401,9 +401,18 @@ def run(ctx):
             recv_ = e_.args[0]
             if recv_[0] == "attr" and (recv_[1] == hval or recv_[1] == self_attr("history")):
                 bad_calls.append((e_, f"{recv_[2]}.{e_.callee[7:]}"))
+    # ... and stores nothing into it: a series re-assigned by the restore (populations rebuilt through a conversion that drops their temperature, a filtered list)
+    # is not the record that was checkpointed
+    for (o_, a_, v_, node_, fn_, seq_) in evr.stores:
+        if fn_ is rfc and (o_ == hval or o_ == self_attr("history")) and hval is not None:
+            class _E:
+                pass
+            e_ = _E()
+            e_.node = node_
+            bad_calls.append((e_, f"{a_} = ..."))
     ctx.decide(not bad_calls, "C11.restore", rfc.ident, loc_of(rfc, bad_calls[0][0].node if bad_calls else None),
                "the restore calls no state-changing method on the restored history",
-               (f"restore_from_checkpoint calls history.{bad_calls[0][1]}(...) on the restored history, a method that deletes or rewrites recorded entries: the run continues from a record "
+               (f"restore_from_checkpoint applies `history.{bad_calls[0][1]}` to the restored history, which deletes or rewrites recorded entries: the run continues from a record "
                 "that is not the checkpointed one (e.g. without the checkpointed population, which the loop does not record again), so every later entry is paired with the wrong population") if bad_calls else "",
                disc="history|mutated")
 
@@ -1136,6 +1145,7 @@ MUTANTS += [
     M("extra sampler state never restored", "src/aspire/samplers/base.py", "self._restore_extra_state(state)\n        return samples, state", "return samples, state", ("C11.src", "C11.state")),
     M("restored iteration read from the wrong key", _B, "iteration = state.get(\"iteration\", 0)", "iteration = state.get(\"iter\", 0)", ("C11.restore", "C11.keys")),
     M("restored beta read from the state root only", _B, "beta = meta.get(\"beta\", None)", "beta = meta.get(\"min_step\", None)", "C11.restore"),
+    M("restore rebuilds the stored populations through a conversion", _B, "self.history = copy.deepcopy(state.get(\"history\", SMCHistory()))", "self.history = copy.deepcopy(state.get(\"history\", SMCHistory()))\n        self.history.sample_history = [SMCSamples.from_samples(s_, xp=self.xp, dtype=self.dtype) for s_ in self.history.sample_history]", "C11.restore"),
     M("history default replaces the stored one", _B, "self.history = copy.deepcopy(state.get(\"history\", SMCHistory()))", "self.history = SMCHistory()", "C11.restore"),
     M("bytes source treated as a path", _SB, "if isinstance(source, str):\n            state = self.load_checkpoint_from_file(source)\n        elif isinstance(source, bytes):\n            state = pickle.loads(source)", "if isinstance(source, bytes):\n            state = self.load_checkpoint_from_file(source)\n        elif isinstance(source, str):\n            state = pickle.loads(source)", "C11.src"),
     M("finished test looks at the second recorded temperature", _B, "last_beta = self.history.beta[-1] if self.history.beta else beta", "last_beta = self.history.beta[1] if self.history.beta else beta", "C11.finished"),
